@@ -73,4 +73,10 @@ CHECKS = {
   "text": "Every subset of the atoms of each of the 20 residue types inside GLY-X-GLY, and of the 7 ionizable types as N-terminal and C-terminal residue, is deleted (exhaustive); generated structures with ligands, ions and several chains lose single atoms, side chains, backbone atoms, termini, whole residues or ligand atoms at 2-60 %; each truncated input must run to completion and report exactly the sites whose defining atom remains. Empty / atom-free inputs and unknown file types must raise ValueError and nothing else.",
   "note": "Exhaustive only for single-residue truncations on one backbone geometry; multi-residue truncations are sampled. Trusts vlib/census.py.",
  },
+ "C11": {
+  "level": "exploration",
+  "technique": "property-based testing (Hypothesis) of the cell-list bond search against an O(n^2) reference in exact integer arithmetic; targeted generator for all 26 neighbour-cell directions and on-boundary placements",
+  "text": "Atom sets handed directly to the bond search (random clouds anywhere in the coordinate field; pairs placed around every bonding threshold relative to the 2.51 A cell lattice so that the partner lies in each of the 26 neighbouring cells or exactly on a cell face/edge/corner; permuted lists; unique, constant and repeated serial numbers) must produce exactly the reference bond set, symmetric lists without self-bonds or duplicates, order independence, bridge flags on exactly the S-S pairs within 2.5 A, and a symmetric pair predicate equal to the reference; end to end, cysteine pairs at 1.9-2.7 A are reported bridged (99.99) iff within 2.5 A.",
+  "note": "Trusts vlib/refs.py:ref_bonded (independent constants, exact integer arithmetic). Exact threshold ties are excluded. The F-F 1.7 A entry of the code is shadowed by the default rule; the reference follows the code (documented).",
+ },
 }
